@@ -285,7 +285,8 @@ def gen_leaf(rng):
     if r < 0.5:
         m = rng.random()
         if m < 0.3:
-            return ("int", rng.choice([0, 1, -1, 2 ** 31, -2 ** 31, 2 ** 63 - 1, -2 ** 63, 2 ** 53 + 1, 255, 256, -32, -33, 65535, 65536]))
+            return ("int", rng.choice([0, 1, -1, 2 ** 31, -2 ** 31, 2 ** 63 - 1, -2 ** 63, 2 ** 53 + 1, 255, 256, -32, -33, 65535, 65536,
+                                       23, 24, -24, -25, 127, 128, -128, -129, 2 ** 32 - 1, 2 ** 32, -2 ** 31 - 1, 2 ** 16 - 1, -2 ** 15 - 1]))
         return ("int", rng.randrange(-2 ** 63, 2 ** 63) >> rng.choice([0, 8, 31, 40, 56, 60]))
     if r < 0.68:
         m = rng.random()
@@ -299,6 +300,10 @@ def gen_leaf(rng):
     m = rng.random()
     if m < 0.15:
         return ("str", "")
+    if m < 0.19:
+        # lengths around every size class of the three formats (fixstr 31/32, str8 255/256, str16 65535/65536; cbor 23/24)
+        n = rng.choice([23, 24, 31, 32, 255, 256] * 4 + [65535, 65536])      # the two big ones rarely: they cost time
+        return ("str", (rng.choice(["a", "é", "ÿ"]) * n)[:n])
     if m < 0.5:
         return ("str", rng.choice(KEYS + ["null", "true", "0", "\\", '"', "\n", "\x00", "\x7f", "é", "日本", "😀", "a b", "﻿"]))
     n = rng.randrange(1, 12)
@@ -311,6 +316,11 @@ def gen_plain(rng, depth):
         return gen_leaf(rng)
     if r < 0.78:
         return ("list", [gen_plain(rng, depth - 1) for _ in range(rng.choice([0, 0, 1, 2, 3]))])
+    if r < 0.8:
+        n = rng.choice([15, 16, 17, 23, 24] * 3 + [255, 256])      # fixarray / fixmap 15|16, cbor 23|24, one-byte lengths
+        if rng.random() < 0.5:
+            return ("list", [("int", i) for i in range(n)])
+        return ("dict", [(f"k{i}", ("int", i)) for i in range(n)])
     keys = rng.sample(KEYS, rng.choice([0, 0, 1, 2, 3]))
     return ("dict", [(k, gen_plain(rng, depth - 1)) for k in keys])
 
@@ -416,7 +426,7 @@ def gen_seq(rng):
     for _ in range(rng.choice([2, 3, 3, 4, 5, 6])):
         r = rng.random()
         if r < 0.25:
-            steps.append(("bad", rng.choice(["raw", "iceraw", "reg", "icetyme"])))
+            steps.append(("bad", rng.choice(["raw", "iceraw", "reg", "icetyme"]), rng.choice(["object", "object", "surrogate"])))
         elif r < 0.35 and trees:
             steps.append(("rt", rng.choice(trees)))            # the same instance again, later in the history
         elif r < 0.45:
